@@ -130,7 +130,8 @@ class RegistryServer(object):
             if magic != "RPYC":
                 self.logger.warn("invalid magic: %r", magic)
                 continue
-            cmdfunc = getattr(self, "cmd_%s" % (cmd.lower(),), None)
+            # the command comes from the network: anything that is not text is an unknown command
+            cmdfunc = getattr(self, "cmd_%s" % (cmd.lower(),), None) if isinstance(cmd, str) else None
             if not cmdfunc:
                 self.logger.warn("unknown command: %r", cmd)
                 continue
